@@ -105,6 +105,15 @@ CLAIMED = {
             "create, rename, link, delete, socket, process; reads only of start-up files, named files and the time-zone database; canaries "
             "and working directory unchanged. Partial: the behaviour of the Rust natives is observed, not proved.",
             "7.6", "Coq proof (loader reads only named files, in-place frame) + system-call observation of the binary"),
+    "C19": ("Theorems about a model of threads that share only an immutable value (the compiled filter): whatever the interleaving "
+            "(every schedule), every thread ends with exactly what it yields alone; instantiated with the interpreter model for T threads "
+            "running one compiled program on their own inputs. Static facts: Filter and Lut are Send + Sync, Val is with the feature sync "
+            "(compile-time assertions of the harness, built on every run). Observation: batches of generated programs compiled once, run "
+            "alone twice (determinism), then by T threads x R repetitions in different orders on the shared compiled filters while another "
+            "thread keeps compiling; with thread-local values (Rc) and with values shared between threads (Arc). Source audit: no static or "
+            "thread-local state in the library crates. Partial: that the Rust filter shares nothing mutable is asserted, audited and "
+            "observed, not proved; no sanitizer.",
+            "7.19", "Coq proof (schedule independence of threads sharing an immutable filter) + Send/Sync assertions + concurrent runs"),
     "C07": ("Theorems: for all 256 bytes and both string kinds the reader undoes the writer's escape in one step; whole text strings "
             "and byte strings of arbitrary bytes (control characters, quotes, DEL, invalid UTF-8) survive print-then-parse. "
             "Correspondence: tojson, tojson|fromjson on exhaustive short strings, floats (edge + random bit patterns), integers of any "
